@@ -30,6 +30,8 @@ func runC04(c *Check) {
 	c04PublishCopies(c, "C04", r)
 	c04Register(c, "C04", r)
 	c16Copy(c, "C04.O7")
+	c16Metadata(c, "C04.O7")
+	c04NoMessageWrites(c, "C04.O7", r)
 }
 
 // the sent copies
@@ -571,4 +573,31 @@ func c04Register(c *Check, P string, r *GCRoles) {
 			c.Report(LoadedField(v) == r.SOut, P+".O6", "SUBSCRIBE-RETURNS-OUTPUT", r.Subscribe, ret.Pos(), "return", "Subscribe returns the new subscription's output channel")
 		}
 	}
+}
+
+// c04NoMessageWrites: GoChannel never writes the UUID, payload or metadata of a
+// message (neither the publisher's nor its copies): what arrives is identical to
+// what was published.
+func c04NoMessageWrites(c *Check, id string, r *GCRoles) {
+	n := 0
+	for _, fn := range r.Funcs {
+		AllInstrs(fn, func(in ssa.Instruction) {
+			switch x := in.(type) {
+			case *ssa.Store:
+				if f, _ := FieldOf(x.Addr); f != nil && ownerName(f) == "message.Message" {
+					c.Report(false, id, "MESSAGE-CONTENT-UNTOUCHED", fn, in.Pos(), "store to Message."+f.Name(), "the Pub/Sub assigns a field of a message: deliveries are no longer identical to what was published")
+				}
+			case ssa.CallInstruction:
+				if IsCallTo(x, nMetaSet) {
+					c.Report(false, id, "MESSAGE-CONTENT-UNTOUCHED", fn, in.Pos(), "Metadata.Set", "the Pub/Sub edits message metadata")
+				}
+			case *ssa.MapUpdate:
+				if f := LoadedField(firstOrigin(x.Map)); f != nil && ownerName(f) == "message.Message" {
+					c.Report(false, id, "MESSAGE-CONTENT-UNTOUCHED", fn, in.Pos(), "metadata map update", "the Pub/Sub edits message metadata")
+				}
+			}
+		})
+		n++
+	}
+	c.Report(true, id, "MESSAGE-CONTENT-SCANNED", r.Publish, r.Publish.Pos(), "package scan", fmt.Sprintf("%d functions of the Pub/Sub scanned for writes to message content", n))
 }
